@@ -35,6 +35,11 @@ type Everyone struct {
 	*Admin
 }
 
+type PickReport struct {
+	Ok     bool
+	Picked int64
+}
+
 type Data struct {
 	Users   []*User
 	Devices []*Device
@@ -164,6 +169,14 @@ func Build(d *Data, a Assignment, service string) *schemabuilder.Schema {
 			d.Picked++
 			return d.user(args.Id)
 		})
+	}
+	if has("user") {
+		// a payload type that only a mutation returns (not federated, reachable from the Mutation root only)
+		m.FieldFunc("pickAndReport", func(args struct{ Id int64 }) *PickReport {
+			d.Picked++
+			return &PickReport{Ok: d.user(args.Id) != nil, Picked: args.Id}
+		})
+		s.Object("PickReport", PickReport{})
 	}
 	if has("users") {
 		q.FieldFunc("users", func(ctx context.Context) ([]*User, error) { return d.Users, nil })
